@@ -231,6 +231,30 @@ extern "C" int harness_main()
 		for (int i = 0; i < len && i < got; ++i) same &= rbuf[i] == payload[i];
 		vp_assert(same, 73);
 	}
+	// two destinations with different path MTUs, datagrams sent back to back: the limit is per destination
+	{
+		address const RB = address(address_v4(0x0a000003));
+		asio::io_context rios2(s, RB);
+		udp::socket rs2(rios2);
+		rs2.open(udp::v4(), ec); rs2.non_blocking(true); rs2.bind(udp::endpoint(RB, 6000), ec);
+		cfg.mtu_tab[std::make_pair(SA, RA)] = 1475;
+		cfg.mtu_tab[std::make_pair(SA, RB)] = 500;
+		df_option o; o.v = IP_PMTUDISC_DO; snd.set_option(o, ec);
+		int got_a = -1, got_b = -1; udp::endpoint f1, f2;
+		static unsigned char ra_buf[1600], rb_buf[1600];
+		rs.async_receive_from(asio::buffer(ra_buf, 1600), f1, [&](error_code const& e, std::size_t n) { if (!e) got_a = int(n); });
+		rs2.async_receive_from(asio::buffer(rb_buf, 1600), f2, [&](error_code const& e, std::size_t n) { if (!e) got_b = int(n); });
+		int const first_wide = vp_choose(2);
+		int const sz = 1000;     // between the two limits
+		if (first_wide) { snd.send_to(asio::buffer(payload, std::size_t(sz)), dst, 0, ec); snd.send_to(asio::buffer(payload, std::size_t(sz)), udp::endpoint(RB, 6000), 0, ec); }
+		else { snd.send_to(asio::buffer(payload, std::size_t(sz)), udp::endpoint(RB, 6000), 0, ec); snd.send_to(asio::buffer(payload, std::size_t(sz)), dst, 0, ec); }
+		vp_assert(!ec, 74);
+		s.run();
+		vp_assert(got_a == sz, 75);      // fits the wide path
+		vp_assert(got_b == -1, 76);      // exceeds the narrow path with don't-fragment set
+		rs2.close(ec);
+		cfg.mtu_tab.clear();
+	}
 	rs.close(ec);
 	s.run();
 	vp_reach(1);
